@@ -16,7 +16,7 @@ reg('C04', 'exploration',
     'runtime monitor: real Block1014/block_1014 driven over enumerated write histories, output compared with a reference blocker',
     'Every residue (quick: 100, thorough: all 1012) x three internal situations x every next write length 0..3036 is '
     'executed on the real blocker under a line-step budget and its finalised file compared byte-for-byte with an '
-    'independent reference (position-coded content, and a second stream with stretches of the fill byte); plus single writes of 64 KiB .. 1 MiB including exact block fits, data that looks like an already blocked file, pairs of blockers written with interleaved writes, seeded long histories and the one-shot function. Held on the '
+    'independent reference (position-coded content, and a second stream with stretches of the fill byte); plus single writes of 64 KiB .. 1 MiB including exact block fits, data that looks like an already blocked file, pairs of blockers written with interleaved writes, a sink that can neither seek nor tell (the fill must be out before any rewind is attempted), seeded long histories and the one-shot function. Held on the '
     'executions produced; the residue x length sub-space is enumerated completely in the thorough tier.',
     'Trusts vmon/ref/blocking.py (validated against the mciipm docstring example) and io.BytesIO.')
 
@@ -25,7 +25,7 @@ reg('C05', 'fault_enumeration',
     'Every residue of bytes already delivered (quick: 100, thorough: all 1012) x three chunkings x every next read size '
     '1..2024 on 1-, 2-, 3- and 5-block files (one with a short last chunk), read() with no size at every residue, seeded '
     'long sequences (size 0 and reads up to 2 MiB included), files of 70, 200 and 2 300 blocks with unsized reads on them; unblock_1014 is fed every truncation length of 1..4-block files and every wrong value of every trailer '
-    'byte, on position-coded payloads and on payloads holding whole blocks of the fill byte (the EBCDIC blank), and on payloads holding blocks of ASCII white space.'
+    'byte, on position-coded payloads and on payloads holding whole blocks of the fill byte (the EBCDIC blank), and on payloads holding blocks of ASCII white space; a second unblocker on the rewound source and a disk file behind a sampled-and-rewound buffered reader.'
     '  Each returned slice is compared with the reference payload stream. Held on the executions produced.',
     'Trusts vmon/ref/blocking.py and io.BytesIO. Read sizes 0/negative are outside the statement; read(None) judged only if it returns.')
 
@@ -34,7 +34,7 @@ reg('C03', 'exploration',
     'Every record length 1..6000 (single-record files, blocked and unblocked, class and convenience APIs) is enumerated in '
     'both tiers; multi-record lists put a length prefix or record end on every offset within +-4 of a 1012-byte payload '
     'boundary; content classes include 0x00/0x40 runs. File bytes are compared with ref.vbs / the blocked payload model and the '
-    'records read back (from the real and from the reference file, five writer idioms incl. close inside a with block; unblocked convenience reads leave the blocked argument out, also on fill-valued files that look blocked; the reader walked in nine styles incl. next-then-for, for/break/for and a second reader on the rewound file object) with the input; the live MAX_VBS_RECORD_LENGTH is also set to 3 000 / 6 500 / 10 000 at run time with records at the new maximum. Held on the executions produced.',
+    'records read back (from the real and from the reference file, five writer idioms incl. close inside a with block; unblocked convenience reads leave the blocked argument out, also on fill-valued files that look blocked; the reader walked in nine styles incl. next-then-for, for/break/for and a second reader on the rewound file object; real files behind a buffered reader that was sampled with peek() and rewound) with the input; the live MAX_VBS_RECORD_LENGTH is also set to 3 000 / 6 500 / 10 000 at run time with records at the new maximum. Held on the executions produced.',
     'Trusts vmon/ref/blocking.py, io.BytesIO. Records are non-empty and at most 6000 bytes.')
 
 reg('C09', 'fault_enumeration',
@@ -60,7 +60,7 @@ reg('C15', 'exploration',
     'All digit strings of length 0..5 (quick) / 0..7 (thorough) are enumerated in each of three interpreter modes (normal, '
     '-O, -OO; the mode is confirmed from sys.flags.optimize inside the child): computed digit equals the reference digit, '
     'validate(add(s)) accepts, and every single-digit substitution and adjacent transposition (other than 0/9) of every valid '
-    'number up to payload length 4 / 5, and of 2 000 / 50 000 seeded numbers of 6..200 digits with separators, is rejected.',
+    'number up to payload length 4 / 5, and of 2 000 / 50 000 seeded numbers of 6..200 digits with separators, is rejected; the functions are also called from six threads at once against precomputed reference answers (inconclusive unless the calls alternated).',
     'Trusts vmon/ref/cards.py Luhn. accepts = returns (not False); rejects = raises or returns False.')
 
 reg('C13', 'exploration',
@@ -77,7 +77,7 @@ reg('C14', 'exploration',
     'PIN 4..12 x PAN 13..19 x key lengths 8/16/24 x key index 0..9 through calculate_pvv and both mix-in routes; cases built '
     'backwards from a chosen ciphertext so that the second decimalisation scan supplies exactly 0,1,2,3 and 4 digits (a run '
     'missing any d is inconclusive); component lists of 2..5 parts of 8, 16 and 24 bytes with every permutation, a duplicated '
-    'component, and the same components given once more after an earlier call in the same process; KCV lengths 1..16; six to_pvv calls on one pin block object with other card / index / key; encrypted zone keys under 16/24-byte master keys.',
+    'component, and the same components given once more after an earlier call in the same process; KCV lengths 1..16; six to_pvv calls on one pin block object with other card / index / key; encrypted zone keys under 16/24-byte master keys; PVV and key combination called from six threads at once against precomputed reference answers (inconclusive unless the calls alternated).',
     'Trusts vmon/ref/crypto.py and vmon/ref/cards.py; cryptography is used only to search for plaintexts, never to judge.')
 
 reg('C01', 'exploration',
@@ -103,7 +103,7 @@ reg('C12', 'exploration',
     'Boundary sweep enumerated completely in both tiers (first value length 940..992 x second 0..60 x third absent/0/1/30: the '
     'running carrier length crosses 985..1005 at every position), exact 999 fills, zero-length values, digit-only values that '
     'look like headers, sets needing exactly 1..5 carriers, seeded sets of up to 60 tags in shuffled insertion order, generated '
-    'configurations with other carrier bits and shuffled key order (a quarter of the cases on a throwaway copy of the configuration, an eighth on a copy used once and then edited so that a carrier moves to another element), latin_1 and EBCDIC; every set is handed to dumps a second time as the same dict object (same bytes). Held on the executions produced.',
+    'configurations with other carrier bits and shuffled key order (a quarter of the cases on a throwaway copy of the configuration, an eighth on a copy used once and then edited so that a carrier moves to another element), latin_1 and EBCDIC; every set is handed to dumps a second time as the same dict object (same bytes); one case in nine runs with the default configuration after the live packaged configuration object was adjusted (a carrier role removed). Held on the executions produced.',
     'Trusts vmon/ref/codec.py (pack_pds, lenient decoder). PDS sets exceeding the configured carriers are outside the statement.')
 
 reg('C16', 'exploration',
@@ -131,10 +131,10 @@ reg('C07', 'fault_enumeration',
     'all 256 values, every length field rewritten to negative / zero / at-over-far-over spellings, the content of every typed element replaced by 35 special words (NaN, Infinity, exponents, impossible dates), truncation at every offset, '
     'seeded multi-point mutation, random byte strings; the same at file level (record prefixes, block trailers, terminator, '
     'embedded message faults) through both readers and both extraction tools in-process, and the two extraction commands as real '
-    'processes (no traceback on stderr), three tools incl. mideu convert, also on valid-but-awkward files (carriers that are full after sorting, non-numeric PDS tags), 23 ICC tails and BER long-form lengths (0x81..0x84 with values pointing back at the tag, at the length byte, nowhere, far ahead) on every DE55; paramconv among the tools; messages ending inside their own header; every guarded call under a kernel-enforced CPU allowance (time spent in C code, e.g. a backtracking pattern, is a violation with the input as witness) and 300 merchant-location shapes per encoding decoded in a CPU-limited child; CPU time for 8 MB vs 1 MB of the same records must scale under 24x. Non-termination is decided as bounded '
+    'processes (no traceback on stderr), three tools incl. mideu convert, also on valid-but-awkward files (carriers that are full after sorting, non-numeric PDS tags), 23 ICC tails and BER long-form lengths (0x81..0x84 with values pointing back at the tag, at the length byte, nowhere, far ahead) on every DE55; paramconv among the tools; one file in seven read through a stream that cannot seek or tell; decoding repeated in child interpreters started with -bb, -O and warnings-as-errors; messages ending inside their own header; every guarded call under a kernel-enforced CPU allowance (time spent in C code, e.g. a backtracking pattern, is a violation with the input as witness) and 300 merchant-location shapes per encoding decoded in a CPU-limited child; CPU time for 8 MB vs 1 MB of the same records must scale under 24x. Non-termination is decided as bounded '
     'progress (20 000 + 100 executed cardutil lines per input byte), not wall-clock.',
     'Bounded progress stands in for termination (worst legitimate path measured < 10 lines/byte). vmon/ref/codec.py lays out the bases. '
-    'A hang inside C code that emits no line events would only trip the per-shard wall-clock watchdog (inconclusive).')
+    'A hang inside C code emits no line events; it is ended by the kernel-enforced CPU allowance and reported with the breadcrumb of the call.')
 
 reg('C08', 'fault_enumeration',
     'runtime monitor: accept/reject decision and returned dict of real loads bracketed by two independent reference decoders (strict subset, lenient superset) over enumerated neighbours of valid messages and constructed overlaps',
@@ -161,7 +161,7 @@ reg('C06', 'exploration',
     'codecs), VBS and 1014, packaged / variant / generated configurations, three writer APIs: file bytes equal the reference '
     'framing of the reference encodings, and the read-back list satisfies the C01 relation element-wise. Isolation: 2..4 reader '
     'and writer programs (some readers hit an injected fault) driven under seeded schedules at operation granularity, and 8 '
-    'threads with a 1 microsecond switch interval; 32 (thorough 192) fresh child processes whose first cardutil calls are the first records of 8 threads; a reader reading through another reader and a reader parked in its source while others must progress; two round trips of more than 1 and 2 MiB; throwaway configuration copies; files in which a blank fixed element makes one whole 1014 block equal to the fill; records with the same keys and other sizes next to each other; the reader walked with list, next-then-for and for/break/for; each instance\'s trace (records, record_number, last_record, error context, '
+    'threads with a 1 microsecond switch interval; 32 (thorough 192) fresh child processes whose first cardutil calls are the first records of 8 threads; a reader reading through another reader and a reader parked in its source while others must progress; two round trips of more than 1 and 2 MiB; throwaway configuration copies; files in which a blank fixed element makes one whole 1014 block equal to the fill; records with the same keys and other sizes next to each other; the reader walked with list, next-then-for and for/break/for; a compact round-trip workload repeated in child interpreters that import only cardutil (-bb, -O, both, BytesWarning / DeprecationWarning as errors, two daylight-saving time zones, wall-clock times in the skipped and the repeated hour); each instance\'s trace (records, record_number, last_record, error context, '
     'file bytes) must equal its solo trace. The run is inconclusive unless thread alternations were actually observed.',
     'Trusts vmon/ref/codec.py and vmon/ref/blocking.py. Each thread owns its files and message objects. Per-thread step counters.')
 
